@@ -46,11 +46,22 @@ type Solver struct {
 	NSat      int
 	NUnsat    int
 	NUnknown  int
+	NHybridMiss int
+	NBadModel   int
 	NErrors   int
 	SolveTime time.Duration
 	timeoutMs int
 	FallbackQ int
 }
+
+// hybridMs > 0: try the incremental core for that many milliseconds first.
+var hybridMs = func() int {
+	if v := os.Getenv("GOSYM_HYBRID"); v != "" {
+		n, _ := strconv.Atoi(v)
+		return n
+	}
+	return 30
+}()
 
 func NewSolver(timeoutMs int) *Solver {
 	s := &Solver{bin: "z3-new", args: []string{"-in"}, timeoutMs: timeoutMs}
@@ -273,12 +284,28 @@ func (s *Solver) Check(pc []*Term, extra *Term, wantModel bool) (Result, Model) 
 		s.define(extra)
 		s.send(fmt.Sprintf("(assert %s)", refOf(extra)))
 	}
-	s.send(fmt.Sprintf("(check-sat-using (try-for qfbv %d))", s.timeoutMs))
 	tq := time.Now()
 	// watchdog: the tactic's own time limit is not always honoured
 	proc := s.cmd.Process
 	wd := time.AfterFunc(time.Duration(s.timeoutMs)*time.Millisecond*3/2+2*time.Second, func() { proc.Kill() })
-	res, msg := s.readResult()
+	var res Result
+	var msg string
+	if hybridMs > 0 {
+		// most queries are small: the incremental core answers them in a
+		// millisecond; what it cannot decide quickly goes to the bit-blaster
+		s.send(fmt.Sprintf("(set-option :timeout %d)", hybridMs))
+		s.send("(check-sat)")
+		res, msg = s.readResult()
+		if res == Unknown && !strings.HasPrefix(msg, "solver died") {
+			s.NHybridMiss++
+			s.send(fmt.Sprintf("(set-option :timeout %d)", s.timeoutMs))
+			s.send(fmt.Sprintf("(check-sat-using (try-for qfbv %d))", s.timeoutMs))
+			res, msg = s.readResult()
+		}
+	} else {
+		s.send(fmt.Sprintf("(check-sat-using (try-for qfbv %d))", s.timeoutMs))
+		res, msg = s.readResult()
+	}
 	wd.Stop()
 	if s.log != nil {
 		fmt.Fprintf(s.log, "; -> %s in %dms\n", res, time.Since(tq).Milliseconds())
@@ -301,6 +328,24 @@ func (s *Solver) Check(pc []*Term, extra *Term, wantModel bool) (Result, Model) 
 	var model Model
 	if res == Sat && wantModel {
 		model = s.getModel(pc, extra)
+		// the model steers which branch is taken without a further query, so
+		// it must really satisfy the path condition (a truncated or failed
+		// get-value must not go unnoticed)
+		if !modelSatisfies(model, pc, extra) {
+			s.NBadModel++
+			s.send(fmt.Sprintf("(set-option :timeout %d)", s.timeoutMs))
+			s.send(fmt.Sprintf("(check-sat-using (try-for qfbv %d))", s.timeoutMs))
+			res, msg = s.readResult()
+			model = nil
+			if res == Sat {
+				model = s.getModel(pc, extra)
+				if !modelSatisfies(model, pc, extra) {
+					s.NBadModel++
+					model = nil
+					res = Unknown
+				}
+			}
+		}
 	}
 	if extra != nil {
 		s.popTo(base)
@@ -317,6 +362,21 @@ func (s *Solver) Check(pc []*Term, extra *Term, wantModel bool) (Result, Model) 
 		}
 	}
 	return res, model
+}
+
+func modelSatisfies(m Model, pc []*Term, extra *Term) bool {
+	if m == nil {
+		return false
+	}
+	for _, t := range pc {
+		if m.Eval(t) == 0 {
+			return false
+		}
+	}
+	if extra != nil && m.Eval(extra) == 0 {
+		return false
+	}
+	return true
 }
 
 func (s *Solver) getModel(pc []*Term, extra *Term) Model {
